@@ -64,7 +64,8 @@ def load_one(lit: LineIterator) -> dict:
                 title = next(lit).strip()
                 words = next(lit).split()
                 natoms = int(words[0])
-                nbonds = int(words[1])
+                # All counts after the number of atoms are optional.
+                nbonds = int(words[1]) if len(words) > 1 else 0
             if words[0] == "@<TRIPOS>ATOM":
                 atnums, atcoords, atchgs, attypes = _load_helper_atoms(lit, natoms)
                 atcharges = {"mol2charges": atchgs}
@@ -105,7 +106,8 @@ def _load_helper_atoms(
         atnums[i] = atnum
         attypes.append(words[5])
         atcoords[i] = [float(words[2]), float(words[3]), float(words[4])]
-        if len(words) == 9:
+        # Columns: id name x y z type [subst_id [subst_name [charge [status_bit]]]]
+        if len(words) >= 9:
             atchgs[i] = float(words[8])
         else:
             atchgs[i] = 0.0000
